@@ -223,6 +223,9 @@ type fieldReadRule struct {
 	derived map[string]string
 	// childrenOnly restricts the rule to child nodes and node lists (a tree walker need not read tokens and flags)
 	childrenOnly bool
+	// compareIsUse: a consumer that only compares a token field (v.Tok == token.NOT) does use it (a compiler dispatching
+	// on the operator); for the printer a comparison alone means the token itself is never written
+	compareIsUse bool
 }
 
 // checkFieldsRead: every syntax-bearing field of nt that the parser sets is read by the code that consumes the node
@@ -327,7 +330,7 @@ func checkFieldsRead(c *core.Check, ppk, xpk *packages.Package, node *types.Inte
 			c.Ok(r.prefix+"-field", key, cc.Pos(), "read outside the node's own case (e.g. by the code that "+r.verb+" its parent)")
 			continue
 		}
-		if read[f] && !used[f] && isTokenField(f) {
+		if read[f] && !used[f] && isTokenField(f) && !r.compareIsUse {
 			c.Bad(r.prefix+"-field", key, cc.Pos(), "the code that "+r.verb+" *ast."+nt.Obj().Name()+" only compares "+key+" (==, !=, !) and never prints it or switches over it: the token the parser stored is replaced by whatever constant the printer emits")
 			continue
 		}
